@@ -150,12 +150,10 @@ class Reader:
                 self.meta["fileTimeSecs"] = ftsec
         else:
             if self.nc * self.ns * self.dtype.itemsize != self.nbytes:
+                # only the complete sample frames present in the file are exposed
                 ftsec = (
-                    self.file_bin.stat().st_size
-                    / self.dtype.itemsize
-                    / self.nc
-                    / self.fs
-                )
+                    self.file_bin.stat().st_size // (self.dtype.itemsize * self.nc)
+                ) / self.fs
                 if self.meta is not None:
                     if not self.ignore_warnings:
                         _logger.warning(
